@@ -1,7 +1,7 @@
 #!/bin/bash
 # usage: redemo.sh <name> <ID> <demo-args>   - re-run only the demonstration (pristine / patched) of a stored change and update meta.json
 NAME=$1; ID=$2; shift 2; ARGS="$@"
-WT=/tmp/wt3/$ID; DEST=/verif/seeded/$NAME
+WT=${WTROOT:-/tmp/wt3}/$ID; DEST=/verif/seeded/$NAME
 git -C /repo worktree remove --force $WT >/dev/null 2>&1; rm -rf $WT
 git -C /repo worktree add --detach $WT HEAD >/dev/null 2>&1 || exit 2
 trap 'git -C /repo worktree remove --force $WT >/dev/null 2>&1; rm -rf $WT' EXIT
